@@ -1,1 +1,2 @@
 import MaddyVerif.Props.C16
+import MaddyVerif.Props.C17
